@@ -1,6 +1,6 @@
 //go:build verif
 
-package semver
+package pypi
 
 // Machine-checked contracts for this package (checked by /verif/govc; see /verif/DESIGN.md).
 // This file contains comments only; it is compiled only under the build tag "verif".
@@ -8,9 +8,18 @@ package semver
 //@ func compareInt
 //@   comparator a ~ b                                     [C01]
 //@   ensures result == 0 ==> a == b                       [C01]
-//@   ensures result == (a < b ? -1 : (a > b ? 1 : 0))     [C03 C08]
+//@   ensures result == (a < b ? -1 : (a > b ? 1 : 0))     [C03 C08 C09]
 
-//@ func comparePrerelease
+//@ func compareReleaseVersions
+//@   comparator a ~ b                                     [C01]
+
+//@ func comparePrereleases
+//@   comparator (aPre, aNum) ~ (bPre, bNum)               [C01]
+
+//@ func comparePostReleases
+//@   comparator a ~ b                                     [C01]
+
+//@ func compareDevReleases
 //@   comparator a ~ b                                     [C01]
 
 //@ func (*Version).Compare
